@@ -185,7 +185,7 @@ structure BrkSt (E : TimedEnv P) (tt : List T) (n i : Nat) (a : T) (A G off0 : R
   hcase : (L.v1 = false ∧ L.v2 = false ∧ A ≤ E.abs L.v7 ∧ E.abs L.v7 ≤ A + ttError ∧
             E.clk w ≤ up + (E.off w - off0))
         ∨ (L.v1 = false ∧ L.v2 = true)
-        ∨ (L.v1 = true ∧ A + ttError < E.abs L.v7)
+        ∨ (L.v1 = true ∧ L.v2 = false ∧ A + ttError < E.abs L.v7)
 
 theorem BrkSt.mono {E : TimedEnv P} {tt : List T} {n i : Nat} {a : T} {A G off0 up m up' m' : Rat}
     {L : MtLocals T DT} {w : σ} (h : BrkSt E tt n i a A G off0 up m L w) (hu : up ≤ up') (hm : m ≤ m') :
@@ -291,7 +291,7 @@ theorem check_wp (E : TimedEnv P) (M : Rat) (Φ : MtLocals T DT → σ → Prop)
     (St : LoopSt E tt n i a A G off0 k D up m L w) (h10 : L.v10 = k)
     (hs : L.v11 = A - E.abs L.v7)
     (hbrk : ∀ L' w', BrkSt E tt n i a A G off0 up (m + 2) L' w' → wp E M Φ (brk L' w'))
-    (hnext : ∀ L' w', LoopSt E tt n i a A G off0 (k + 1) E.L (A + D + E.W + E.L) (m + 2) L' w' →
+    (hnext : k ≤ 1 → ∀ L' w', LoopSt E tt n i a A G off0 (k + 1) E.L (A + D + E.W + E.L) (m + 2) L' w' →
       wp E M Φ (next L' w')) :
     wp E M Φ (refCheck P next brk L w) := by
   have St' := St
@@ -305,7 +305,7 @@ theorem check_wp (E : TimedEnv P) (M : Rat) (Φ : MtLocals T DT → σ → Prop)
   split_ifs with c1 c2 c3 c4
   · -- a clock problem is flagged
     apply hbrk
-    refine ⟨h4, h5, h6, h9, hov, hglo, hnow, hoff, by linarith, Or.inr (Or.inr ⟨c2, ?_⟩)⟩
+    refine ⟨h4, h5, h6, h9, hov, hglo, hnow, hoff, by linarith, Or.inr (Or.inr ⟨c2, h2, ?_⟩)⟩
     show A + ttError < E.abs L.v7
     have c2' : (k = 2 ∧ L.v11 > 0) ∨ ratAbs L.v11 > ttError := by
       simpa only [Bool.or_eq_true, Bool.and_eq_true, beq_iff_eq, decide_eq_true_eq] using c2
@@ -356,7 +356,155 @@ theorem check_wp (E : TimedEnv P) (M : Rat) (Φ : MtLocals T DT → σ → Prop)
       by_contra hh; exact c1 (Or.inl (by omega))
     have hs0 : 0 ≤ L.v11 := by
       by_contra hh; exact c1 (Or.inr (not_le.mp hh))
-    exact sleep_wp E M Φ next brk tt n i a A G off0 k D up m L w hk1 hGM hD St' hs hs0 hbrk hnext
+    exact sleep_wp E M Φ next brk tt n i a A G off0 k D up m L w hk1 hGM hD St' hs hs0 hbrk (hnext hk1)
+
+theorem LoopSt.of_eq {E : TimedEnv P} {tt : List T} {n i : Nat} {a : T} {A G off0 : Rat} {k : Nat} {D up m : Rat}
+    {L : MtLocals T DT} {w : σ} (St : LoopSt E tt n i a A G off0 k D up m L w) (L' : MtLocals T DT)
+    (e0 : L'.v0 = L.v0) (e1 : L'.v1 = L.v1) (e2 : L'.v2 = L.v2) (e4 : L'.v4 = L.v4)
+    (e5 : L'.v5 = L.v5) (e6 : L'.v6 = L.v6) (e7 : L'.v7 = L.v7) (e8 : L'.v8 = L.v8) (e9 : L'.v9 = L.v9) :
+    LoopSt E tt n i a A G off0 k D up m L' w := by
+  obtain ⟨h1, h2, h4, h5, h6, h8, h9, hov, hglo, he1, he2, hnow, hd, hup, hoff, hoffm⟩ := St
+  exact ⟨by rw [e1]; exact h1, by rw [e2]; exact h2, by rw [e4]; exact h4, by rw [e5]; exact h5,
+    by rw [e6]; exact h6, by rw [e8, e7]; exact h8, by rw [e9]; exact h9, by rw [e0]; exact hov,
+    by rw [e7]; exact hglo, by rw [e0, e7]; exact he1, by rw [e7]; exact he2, by rw [e7]; exact hnow,
+    by rw [e7]; exact hd, hup, hoff, hoffm⟩
+
+/-- **one step of `for step in range(3)`** (`refBody`): inside the ±12 h window the computed `sleeptime` is
+    `A − reading`, then `check_wp` -/
+theorem body_wp (E : TimedEnv P) (M : Rat) (Φ : MtLocals T DT → σ → Prop)
+    (next brk : MtLocals T DT → σ → Res (MtLocals T DT) σ)
+    (tt : List T) (n i : Nat) (a : T) (A G off0 : Rat) (k : Nat) (D up m : Rat)
+    (L : MtLocals T DT) (w : σ) (hk : k ≤ 2) (hGM : G ≤ M) (hD : 0 ≤ D)
+    (St : LoopSt E tt n i a A G off0 k D up m L w) (h10 : L.v10 = k)
+    (kA : Int) (hA : A = (kA : Rat) * secPerDay + todS P a)
+    (hG : G < secPerDay / 2) (hwin : up + m * E.J < A + secPerDay / 2)
+    (hbrk : ∀ L' w', BrkSt E tt n i a A G off0 up (m + 2) L' w' → wp E M Φ (brk L' w'))
+    (hnext : k ≤ 1 → ∀ L' w', LoopSt E tt n i a A G off0 (k + 1) E.L (A + D + E.W + E.L) (m + 2) L' w' →
+      wp E M Φ (next L' w')) :
+    wp E M Φ (refBody P next brk L w) := by
+  unfold refBody
+  apply check_wp E M Φ next brk tt n i a A G off0 k D up m { L with v11 := secondsUntil P L.v9 L.v8 } w hk hGM hD
+    (St.of_eq { L with v11 := secondsUntil P L.v9 L.v8 } rfl rfl rfl rfl rfl rfl rfl rfl rfl) h10 _ hbrk hnext
+  show secondsUntil P L.v9 L.v8 = A - E.abs L.v7
+  rw [St.h9, St.h8]
+  apply secondsUntil_eq E a L.v7 A kA hA
+  · have := St.hnow; have := St.hup; have := St.hoffm; linarith
+  · have := St.hglo; linarith
+
+/-- **the sleep loop** `for step in range(3)` followed by `brk` = what comes after it -/
+theorem loop_wp (E : TimedEnv P) (M : Rat) (Φ : MtLocals T DT → σ → Prop)
+    (tt : List T) (n i : Nat) (a : T) (A G off0 : Rat) (D up UP m : Rat)
+    (L : MtLocals T DT) (w : σ) (hGM : G ≤ M) (hD : 0 ≤ D)
+    (St : LoopSt E tt n i a A G off0 0 D up m L w)
+    (kA : Int) (hA : A = (kA : Rat) * secPerDay + todS P a)
+    (hG : G < secPerDay / 2)
+    (hU0 : up ≤ UP) (hU1 : A + D + E.W + E.L ≤ UP) (hU2 : A + 2 * E.L + E.W ≤ UP)
+    (hwin : UP + (m + 6) * E.J < A + secPerDay / 2)
+    (htail : ∀ L' w', BrkSt E tt n i a A G off0 UP (m + 6) L' w' → wp E M Φ (refTail P L' w')) :
+    wp E M Φ (mtFor1 P (List.range 3) L w) := by
+  have e : List.range 3 = [0, 1, 2] := by decide
+  have t : mtAfter1 P = refTail P := by funext L w; exact tail_is_ref P L w
+  rw [e]
+  simp only [mtFor1, body_is_ref, t]
+  have hJ := E.hJ
+  have hL := E.hL
+  have m2 : (m + 2) * E.J = m * E.J + 2 * E.J := by ring
+  have m4 : (m + 2 + 2) * E.J = m * E.J + 4 * E.J := by ring
+  have m6 : (m + 6) * E.J = m * E.J + 6 * E.J := by ring
+  apply body_wp E M Φ _ _ tt n i a A G off0 0 D up m { L with v10 := 0 } w (by omega) hGM hD
+    (St.of_eq { L with v10 := 0 } rfl rfl rfl rfl rfl rfl rfl rfl rfl) rfl kA hA hG (by linarith)
+  · intro L' w' hb
+    exact htail L' w' (hb.mono hU0 (by linarith))
+  · intro _ L1 w1 St1
+    apply body_wp E M Φ _ _ tt n i a A G off0 1 E.L (A + D + E.W + E.L) (m + 2) { L1 with v10 := 1 } w1 (by omega) hGM hL
+      (St1.of_eq { L1 with v10 := 1 } rfl rfl rfl rfl rfl rfl rfl rfl rfl) rfl kA hA hG (by linarith)
+    · intro L' w' hb
+      exact htail L' w' (hb.mono hU1 (by linarith))
+    · intro _ L2 w2 St2
+      apply body_wp E M Φ _ _ tt n i a A G off0 2 E.L (A + E.L + E.W + E.L) (m + 2 + 2) { L2 with v10 := 2 } w2 (by omega) hGM hL
+        (St2.of_eq { L2 with v10 := 2 } rfl rfl rfl rfl rfl rfl rfl rfl rfl) rfl kA hA hG (by linarith)
+      · intro L' w' hb
+        exact htail L' w' (hb.mono (by linarith) (by linarith))
+      · intro h; omega
+
+/-! ## one pass -/
+
+/-- how a pass that was heading for the instant `A` (time of day `a = timetable[i]`) ends.  `wr` is the world in
+    which the sleep loop was left (after the last clock reading `L'.v7`):
+    * SERVED: the reading is in `[A, A + _TT_ERROR]`, the clock was at most at `UP` (plus the jumps declared
+      during the pass), exactly the blocks registered for `a` in `wr` were recalculated with that reading, and the
+      index advanced by one;
+    * RELOAD: a request arrived during `wait_for`; nothing was recalculated, the index is kept;
+    * RESET: the reading was more than `_TT_ERROR` past `A`; EVERY block registered in `wr` was recalculated
+      with it and the index is forgotten. -/
+def PassOutcome (E : TimedEnv P) (tt : List T) (n i : Nat) (a : T) (A G off0 UP m : Rat)
+    (L' : MtLocals T DT) (w' : σ) : Prop :=
+  L'.v4 = tt ∧ L'.v5 = n ∧ L'.v9 = a ∧ ttOk ≤ L'.v0 ∧ L'.v1 = false ∧ A - G ≤ E.abs L'.v7 ∧
+  ∃ wr, E.abs L'.v7 ≤ E.clk wr ∧ off0 ≤ E.off wr ∧ E.off wr ≤ off0 + m * E.J ∧
+   ((L'.v2 = false ∧ L'.v6 = some ((i + 1) % n) ∧ A ≤ E.abs L'.v7 ∧ E.abs L'.v7 ≤ A + ttError ∧
+       E.clk wr ≤ UP + (E.off wr - off0) ∧
+       w' = if P.hasAlarm wr a then recalcAll P (P.clientsAt wr a) L'.v7 wr else wr)
+    ∨ (L'.v2 = true ∧ L'.v6 = some i ∧ w' = wr)
+    ∨ (L'.v2 = false ∧ L'.v6 = none ∧ A + ttError < E.abs L'.v7 ∧
+       w' = recalcAll P (P.allClients wr) L'.v7 wr))
+
+/-- what follows the sleep loop (`refTail`) -/
+theorem tail_wp (E : TimedEnv P) (M : Rat) (tt : List T) (n i : Nat) (a : T) (A G off0 UP m : Rat)
+    (L : MtLocals T DT) (w : σ) (hb : BrkSt E tt n i a A G off0 UP m L w) :
+    wp E M (PassOutcome E tt n i a A G off0 UP m) (refTail P L w) := by
+  obtain ⟨h4, h5, h6, h9, hov, hglo, hnow, hoff, hoffm, hcase⟩ := hb
+  unfold refTail
+  rcases hcase with ⟨c1, c2, c3, c4, c5⟩ | ⟨c1, c2⟩ | ⟨c1, c2, c3⟩
+  · simp only [c1, c2, h6, Bool.false_eq_true, ↓reduceIte]
+    exact ⟨h4, h5, h9, hov, rfl, hglo, w, hnow, hoff, hoffm, Or.inl ⟨rfl, by rw [h5], c3, c4, c5, by rw [h9]⟩⟩
+  · simp only [c1, c2, Bool.false_eq_true, ↓reduceIte]
+    exact ⟨h4, h5, h9, hov, c1, hglo, w, hnow, hoff, hoffm, Or.inr (Or.inl ⟨c2, h6, rfl⟩)⟩
+  · simp only [c1, ↓reduceIte]
+    exact ⟨h4, h5, h9, hov, rfl, hglo, w, hnow, hoff, hoffm, Or.inr (Or.inr ⟨c2, rfl, c3, rfl⟩)⟩
+
+/-- the loop at the beginning of a pass whose index is known: it is heading for the instant `A` (time of day
+    `a = timetable[i]`), the latest reading is at most `G` before `A`, the clock at most `lat` after it -/
+structure KnownSt (E : TimedEnv P) (tt : List T) (n i : Nat) (a : T) (A G lat : Rat)
+    (L : MtLocals T DT) (w : σ) : Prop where
+  h1 : L.v1 = false
+  h2 : L.v2 = false
+  h4 : L.v4 = tt
+  h5 : L.v5 = n
+  h6 : L.v6 = some i
+  hget : tt[i]? = some a
+  hov : ttOk ≤ L.v0
+  hglo : A - G ≤ E.abs L.v7
+  hnow : E.abs L.v7 ≤ E.clk w
+  hlate : E.clk w ≤ A + lat
+
+/-- **one pass with a known index**, for every behaviour of the environment -/
+theorem pass_known (E : TimedEnv P) (M : Rat) (tt : List T) (n i : Nat) (a : T) (A G lat UP : Rat)
+    (L : MtLocals T DT) (w : σ) (hGM : G ≤ M)
+    (K : KnownSt E tt n i a A G lat L w)
+    (kA : Int) (hA : A = (kA : Rat) * secPerDay + todS P a) (hG : G < secPerDay / 2)
+    (hU0 : A + lat + E.L ≤ UP) (hU2 : A + 2 * E.L + E.W ≤ UP)
+    (hwin : UP + 7 * E.J < A + secPerDay / 2) :
+    wp E M (PassOutcome E tt n i a A G (E.off w) UP 7) (mtStep P L w) := by
+  obtain ⟨h1, h2, h4, h5, h6, hget, hov, hglo, hnow, hlate⟩ := K
+  rw [head_is_ref]
+  unfold refHead refWake
+  simp only [h2, Bool.false_eq_true, ↓reduceIte, h6, h4, hget]
+  have r1 := E.read_lo w
+  have r2 := E.read_hi w
+  have r3 := E.read_cost w
+  have r4 := E.read_off w
+  have hL := E.hL
+  have hJ := E.hJ
+  apply loop_wp E M _ tt n i a A G (E.off w) E.L (A + lat + E.L) UP 1 _ _ hGM hL ?_ kA hA hG hU0
+    (by linarith) hU2 (by linarith)
+  · intro L' w' hb
+    exact tail_wp E M tt n i a A G (E.off w) UP (1 + 6) L' w' hb |> fun h => by
+      have e : (1 + 6 : Rat) = 7 := by norm_num
+      rw [e] at h; exact h
+  · exact ⟨h1, rfl, rfl, h5, rfl, rfl, rfl, hov, by show A - G ≤ E.abs (P.dtnow w).1; linarith,
+      fun h => by omega, fun h => by omega, r2,
+      by show E.clk (P.dtnow w).2 ≤ E.abs (P.dtnow w).1 + E.L + (E.off (P.dtnow w).2 - E.off w); linarith,
+      by linarith, r4.1, by linarith [r4.2]⟩
 
 end timing
 end Edzed.Cron
